@@ -85,6 +85,9 @@ pub struct World {
     pub end_us: u64,
     /// guard against runaway loops inside one poll (raised by properties that need long runs)
     pub call_limit: u32,
+    /// cooperative yield points inside the library ("buggify"): PRNG state and rate in percent
+    pub buggify_state: u64,
+    pub buggify_rate: u64,
     pub intentional_yield: bool,
     pub active: bool,
     pub rng_state: u64,
@@ -115,6 +118,8 @@ impl World {
             ended: false,
             end_us: 0,
             call_limit: 5000,
+            buggify_state: 0,
+            buggify_rate: 0,
             intentional_yield: false,
             active: false,
             rng_state: 0,
@@ -248,6 +253,22 @@ pub fn hash_str(s: &str) -> u64 {
     let mut h = std::hash::SipHasher::new_with_keys(0x5eed, 0x7057);
     s.hash(&mut h);
     h.finish()
+}
+
+/// Installed as the library's async yield hook: a seeded coin per site visit.
+pub fn hook_async_yield(_site: &'static str) -> bool {
+    with(|w| {
+        if w.buggify_rate == 0 {
+            return false;
+        }
+        let r = crate::rng::splitmix(&mut w.buggify_state);
+        let y = r % 100 < w.buggify_rate;
+        if y {
+            w.intentional_yield = true;
+            *w.faults.entry("yield_before_lock").or_insert(0) += 1;
+        }
+        y
+    })
 }
 
 /// Seeded generator handed to the library's jitter hook.
